@@ -375,6 +375,9 @@ func checkC16(c *Ctx) error {
 					}
 				}
 			}
+			// a --path whose first element is a literal "~" (quoted, or written --path=~/x, so no
+			// shell expanded it): only on a fresh destination
+			ncases = append(ncases, c16NativeCase{agent: ai.name, skill: ai.skill, sub: sub, user: user, customKind: 3, baseState: 0})
 		}
 	}
 	nrun, nerr := runC16Native(c, k.S.Repo, k.S.Dir, srcRoot, tree, ncases, violation)
@@ -396,6 +399,6 @@ func checkC16(c *Ctx) error {
 	c.Assume("native differential: every (agent, --user, --path kind, base state except unreadable) case is also run through the CLI built from the working tree with one concrete HOME / cwd / --path (a directory name containing a space included) and judged by the same documented expectation")
 	c.Assume("the process umask is an environment parameter: symbolic runs fork over {022, 027, 077} wherever a file is created with an explicit permission argument; the native cases for fresh and older-content destinations are repeated under umask 077 (thorough: 027 too)")
 	c.Assume("environment variables other than HOME are arbitrary symbolic strings in the model (one per name); natively the fresh / older-content cases are repeated with XDG_{CONFIG,DATA,STATE,CACHE}_HOME pointing elsewhere")
-	c.Assume("tilde expansion and relative --path resolution against cwd are those of filepath.Abs (outside the stub: trusted)")
+	c.Assume("relative --path resolution against cwd is that of filepath.Abs (outside the stub: trusted); a --path starting with a literal ~/ is covered by the native cases only, where both readings of \"the custom path\" are accepted: <cwd>/~/x, or x below $HOME - never anything else (e.g. the account's passwd home)")
 	return nil
 }
